@@ -38,3 +38,66 @@ class ExplodesOnLoad:
 
 
 USER = {(0, 20): UserError, (0, 20, 0): UserErrorSub}
+
+
+# ---- what a callee may RETURN besides plain data (dimension `ret` of C17): picklable objects that merely LOOK like work
+# still to be done.  "yields exactly what the function returns": the awaiting task must get an instance of the very
+# same class carrying the same payload - not what awaiting / iterating it would produce.
+class Lazy:
+    """a picklable awaitable (a lazy request / query object): awaiting it yields its payload"""
+
+    def __init__(self, info):
+        self.info = info
+
+    def __await__(self):
+        return self.info
+        yield
+
+
+class LazyFails(Lazy):
+    """a picklable awaitable whose evaluation fails: awaiting it raises (returning it from a function does not)"""
+
+    def __await__(self):
+        raise UserError(self.info)
+        yield
+
+
+class Countdown:
+    """a picklable generator-like object (iterator protocol + send / throw / close)"""
+
+    def __init__(self, info, n=3):
+        self.info = info
+        self.n = n
+
+    def __iter__(self):
+        return self
+
+    def __next__(self):
+        if self.n <= 0:
+            raise StopIteration(self.info)
+        self.n -= 1
+        return self.n
+
+    def send(self, value):
+        return self.__next__()
+
+    def throw(self, *exc):
+        raise exc[0]
+
+    def close(self):
+        self.n = 0
+
+
+class AwaitableIter(Countdown):
+    """both at once: __await__ hands out itself as the iterator (the shape of asyncio.Future)"""
+
+    def __await__(self):
+        return self
+
+
+async def coro_result(info):
+    """a coroutine function: a SYNC callee that returns coro_result(info) returns a coroutine object"""
+    return info
+
+
+RET_CLASSES = {'awaitable': Lazy, 'awaitable_fails': LazyFails, 'iterator': Countdown, 'awaitable_iter': AwaitableIter}
